@@ -4,7 +4,7 @@ C12 — per-device configuration areas: template, configuration and binary round
 Model      : Model/ConfigArea.lean (hand-written, on top of the C16 `BinaryImage` model; tied to /repo by harness/props/C12.py:
              layouts compared with the live `Registers` objects, export/parse/computed/seal/CRC compared with the real code).
 Generated  : Generated/RegLayouts.lean (every distinct register layout of the device database after alias/revision
-             resolution, binary sizes, prefill bytes, computed-field rules, seal words), Generated/PfrFuns.lean (AST translation
+             resolution, binary sizes, prefill bytes, computed-field rules, seal words), Generated/PfrRules.lean (bit-expression trees
              of the two computed-field functions of spsdk/pfr/pfr.py).
 Helper lemmas: Proofs/ConfigArea.lean.
 
@@ -20,7 +20,7 @@ import SpsdkVerif.Proofs.RegistersCfg
 import SpsdkVerif.Properties.C11
 import SpsdkVerif.Generated.RegLayouts
 import SpsdkVerif.Generated.RegDetails
-import SpsdkVerif.Generated.PfrFuns
+import SpsdkVerif.Generated.PfrRules
 import SpsdkVerif.Generated.CrcTable
 
 namespace SpsdkVerif.C12
@@ -314,11 +314,33 @@ theorem rule_keeps_user_bits (v : Nat) (hv : v < 2 ^ 32) :
     applyRule 0 v &&& 0xFFFF = v &&& 0xFFFF ∧ applyRule 1 v &&& 0xFFFF00FF = v &&& 0xFFFF00FF :=
   ⟨invHighHalf_low v, invLow8_keeps v hv⟩
 
-/-- the model's rules are the functions of the CURRENT source (AST translation of spsdk/pfr/pfr.py) -/
-theorem rule0_is_source (v : Nat) :
-    Generated.PfrFuns.pfrInverseHighHalf (v : Int) = .ok ((applyRule 0 v : Nat) : Int) := pfrInverseHighHalf_agrees v
-theorem rule1_is_source (v : Nat) :
-    Generated.PfrFuns.pfrInverseLower8Bits (v : Int) = .ok ((applyRule 1 v : Nat) : Int) := pfrInverseLower8Bits_agrees v
+/-- the model's rules are the functions of the CURRENT source: `Generated/PfrRules.lean` holds the bodies of
+    `pfr_reg_inverse_high_half` / `pfr_reg_inverse_lower_8_bits` as bit-expression trees (constants read by value); the VERIFIED
+    equivalence checker `bitEquiv32` (Base/BitExpr.lean) compares them semantically with the model's rules - every bit below the
+    bound by brute force over the input bits it depends on, the constant part above - so any rewrite of the source that computes
+    the same function passes and any change of behaviour on a 32-bit input fails, whatever the shape of the body -/
+theorem rule0_is_source : Generated.PfrRules.rule0.map (fun e => BitExpr.bitEquiv32 e specRule0) = some true := by decide +kernel
+theorem rule1_is_source : Generated.PfrRules.rule1.map (fun e => BitExpr.bitEquiv32 e specRule1) = some true := by decide +kernel
+
+/-- … i.e. on every 32-bit register value the source functions compute the model's rules -/
+theorem rules_are_source :
+    (∃ e, Generated.PfrRules.rule0 = some e ∧ ∀ v, v < 2 ^ 32 → BitExpr.eval e v = applyRule 0 v) ∧
+    (∃ e, Generated.PfrRules.rule1 = some e ∧ ∀ v, v < 2 ^ 32 → BitExpr.eval e v = applyRule 1 v) := by
+  constructor
+  · have h := rule0_is_source
+    cases hr : Generated.PfrRules.rule0 with
+    | none => rw [hr] at h; cases h
+    | some e =>
+      rw [hr] at h
+      simp only [Option.map_some, Option.some.injEq] at h
+      exact ⟨e, rfl, fun v hv => by rw [BitExpr.bitEquiv32_sound e specRule0 h v hv, specRule0_eval]; rfl⟩
+  · have h := rule1_is_source
+    cases hr : Generated.PfrRules.rule1 with
+    | none => rw [hr] at h; cases h
+    | some e =>
+      rw [hr] at h
+      simp only [Option.map_some, Option.some.injEq] at h
+      exact ⟨e, rfl, fun v hv => by rw [BitExpr.bitEquiv32_sound e specRule1 h v hv, specRule1_eval]; rfl⟩
 
 /-- after `set_config`, every computed register the configuration mentions satisfies its rule … -/
 theorem computed_hold (l : Layout) (m : Nat → Bool) (vals : Vals) (wf : LayoutWF l) (hb : l.binary = true)
@@ -463,10 +485,11 @@ theorem tz_roundtrip (ws : List Nat) (tail : Bytes) (h : ∀ w ∈ ws, w < 2 ^ 3
     ∃ b, tzExport ws = .ok b ∧ b.length = 4 * ws.length ∧ tzParse ws.length (b ++ tail) = .ok ws :=
   tz_roundtrip' ws tail h
 
-/-- the model packs little-endian unsigned 32-bit words because the SOURCE does: `struct.pack(f"<{n}I")` / `struct.unpack(f"<{n}L")`
-    (both are 4-byte unsigned with the standard-size prefix `<`) -/
+/-- the model packs little-endian unsigned 32-bit words because the SOURCE does: the struct formats of `_custom_export` /
+    `_parse_raw_data` are read by value and normalised (`L` and `I` are the same 4-byte unsigned item under the standard-size
+    prefix `<`) -/
 theorem gen_tz_struct_formats :
-    Generated.RegLayouts.tzPackFormat = ("<", "I") ∧ Generated.RegLayouts.tzUnpackFormat = ("<", "L") := by decide
+    Generated.RegLayouts.tzPackFormat = ("<", "I", 4) ∧ Generated.RegLayouts.tzUnpackFormat = ("<", "I", 4) := by decide
 
 theorem tz_short_binary_refused (n : Nat) (b : Bytes) (h : b.length < 4 * n) : tzParse n b = .error .spsdk := by
   have : n > b.length / 4 := by omega
